@@ -185,6 +185,56 @@ impl<T: AB + ?Sized> AB for Box<T> {
     }
 }
 
+/// the storage the components of a path point into
+pub trait Raw {
+    fn raw(&self) -> &[u8];
+}
+impl<T: for<'enc> Encoding<'enc>> Raw for Path<T> {
+    fn raw(&self) -> &[u8] {
+        self.as_bytes()
+    }
+}
+impl<T: for<'enc> Encoding<'enc>> Raw for PathBuf<T> {
+    fn raw(&self) -> &[u8] {
+        self.as_bytes()
+    }
+}
+impl<T: for<'enc> Utf8Encoding<'enc>> Raw for Utf8Path<T> {
+    fn raw(&self) -> &[u8] {
+        self.as_str().as_bytes()
+    }
+}
+impl<T: for<'enc> Utf8Encoding<'enc>> Raw for Utf8PathBuf<T> {
+    fn raw(&self) -> &[u8] {
+        self.as_str().as_bytes()
+    }
+}
+impl Raw for TypedPath<'_> {
+    fn raw(&self) -> &[u8] {
+        self.as_bytes()
+    }
+}
+impl Raw for TypedPathBuf {
+    fn raw(&self) -> &[u8] {
+        self.as_bytes()
+    }
+}
+impl Raw for Utf8TypedPath<'_> {
+    fn raw(&self) -> &[u8] {
+        self.as_str().as_bytes()
+    }
+}
+impl Raw for Utf8TypedPathBuf {
+    fn raw(&self) -> &[u8] {
+        self.as_str().as_bytes()
+    }
+}
+impl<T: Raw + ?Sized> Raw for &T {
+    fn raw(&self) -> &[u8] {
+        (**self).raw()
+    }
+}
+
 /// which variant a runtime-typed value wraps (U / W), "-" for the statically typed families
 pub trait Variant {
     fn variant(&self) -> Val {
@@ -460,7 +510,7 @@ macro_rules! impl_api {
                     let cm = if *d { it.next_back() } else { it.next() };
                     let off = match &cm {
                         Some(x) => match x.inner() {
-                            Some(s) => off_in(p, s),
+                            Some(s) => off_in(path.raw(), s),
                             None => Val::N,
                         },
                         None => Val::N,
@@ -682,6 +732,25 @@ impl_api!(TW, utf8 = false, path = |p| TypedPath::windows(p), arg = |a| a, buf =
 impl_api!(T8U, utf8 = true, path = |p| Utf8TypedPath::unix(s(p)), arg = |a| s(a), buf = |x| Utf8TypedPathBuf::from_unix(s(x)),
           collect = |xs| { let mut t = Utf8TypedPathBuf::unix(); for x in xs { t.push(s(x.bytes())); } t }, has_valid = no);
 impl_api!(T8W, utf8 = true, path = |p| Utf8TypedPath::windows(s(p)), arg = |a| s(a), buf = |x| Utf8TypedPathBuf::from_windows(s(x)),
+          collect = |xs| { let mut t = Utf8TypedPathBuf::windows(); for x in xs { t.push(s(x.bytes())); } t }, has_valid = no);
+
+// owned buffers: PathBuf / Utf8PathBuf have their own Eq / Ord / Hash impls, TypedPathBuf / Utf8TypedPathBuf
+// re-dispatch every query: families bu bw b8u b8w tbu tbw tb8u tb8w
+impl_api!(BU, utf8 = false, path = |p| UnixPathBuf::from(p), arg = |a| a, buf = |x| UnixPathBuf::from(x),
+          collect = |xs| xs.iter().map(|x| x.bytes()).collect::<UnixPathBuf>(), has_valid = yes);
+impl_api!(BW, utf8 = false, path = |p| WindowsPathBuf::from(p), arg = |a| a, buf = |x| WindowsPathBuf::from(x),
+          collect = |xs| xs.iter().map(|x| x.bytes()).collect::<WindowsPathBuf>(), has_valid = yes);
+impl_api!(B8U, utf8 = true, path = |p| Utf8UnixPathBuf::from(s(p)), arg = |a| s(a), buf = |x| Utf8UnixPathBuf::from(s(x)),
+          collect = |xs| xs.iter().map(|x| s(x.bytes())).collect::<Utf8UnixPathBuf>(), has_valid = yes);
+impl_api!(B8W, utf8 = true, path = |p| Utf8WindowsPathBuf::from(s(p)), arg = |a| s(a), buf = |x| Utf8WindowsPathBuf::from(s(x)),
+          collect = |xs| xs.iter().map(|x| s(x.bytes())).collect::<Utf8WindowsPathBuf>(), has_valid = yes);
+impl_api!(TBU, utf8 = false, path = |p| TypedPathBuf::from_unix(p), arg = |a| a, buf = |x| TypedPathBuf::from_unix(x),
+          collect = |xs| { let mut t = TypedPathBuf::unix(); for x in xs { t.push(x.bytes()); } t }, has_valid = no);
+impl_api!(TBW, utf8 = false, path = |p| TypedPathBuf::from_windows(p), arg = |a| a, buf = |x| TypedPathBuf::from_windows(x),
+          collect = |xs| { let mut t = TypedPathBuf::windows(); for x in xs { t.push(x.bytes()); } t }, has_valid = no);
+impl_api!(TB8U, utf8 = true, path = |p| Utf8TypedPathBuf::from_unix(s(p)), arg = |a| s(a), buf = |x| Utf8TypedPathBuf::from_unix(s(x)),
+          collect = |xs| { let mut t = Utf8TypedPathBuf::unix(); for x in xs { t.push(s(x.bytes())); } t }, has_valid = no);
+impl_api!(TB8W, utf8 = true, path = |p| Utf8TypedPathBuf::from_windows(s(p)), arg = |a| s(a), buf = |x| Utf8TypedPathBuf::from_windows(s(x)),
           collect = |xs| { let mut t = Utf8TypedPathBuf::windows(); for x in xs { t.push(s(x.bytes())); } t }, has_valid = no);
 
 // PlatformEncoding forwards to the native encoding of the host (Unix here): families pu / p8
